@@ -9,7 +9,7 @@ use serde_json::json;
 
 const COUNTS: [u32; 6] = [0, 1, 0xFF, 0x100, 0x01020304, 0xFFFFFFFF];
 const KEY_LENS: [usize; 10] = [0, 32, 77, 256, 300, 600, 621, 622, 639, 640];
-const AAGUID_LENS: [usize; 3] = [16, 0, 17];
+const AAGUID_LENS: [usize; 5] = [16, 0, 17, 15, 1];
 const CAPACITY: usize = 676;
 
 /// words: [flavour, flags (raw 0..15), count idx (0..6 lattice, 6 = random), attested present,
@@ -19,7 +19,7 @@ fn g_authdata(src: &mut Src, obs: &mut Obs) -> CaseResult {
     let fl = src.word() & 15;
     let ci = src.below(7);
     let att = src.bool();
-    let ai = src.below(3);
+    let ai = src.below(AAGUID_LENS.len());
     let raw = src.word() as usize;
     let id_len = if raw <= 70_000 { raw } else { raw % 720 };
     let ki = src.below(KEY_LENS.len());
@@ -211,11 +211,118 @@ fn g_authdata(src: &mut Src, obs: &mut Obs) -> CaseResult {
 pub const G_AD: Gen = Gen { name: "c07_authdata", f: g_authdata };
 
 pub fn gens() -> Vec<Gen> {
-    vec![G_AD]
+    vec![G_AD, G_GENERIC]
 }
 
-pub const RULE: &str = "Deterministic grid: both flavours x attested data absent/present x aaguid length {16,0,17} x credential-id length EVERY value 0..=700 and 65535/65536/70000 x public-key length {0,32,77,256,300} x extensions absent/present, with the 16 flag subsets, the six counters 0,1,0xFF,0x100,0x01020304,0xFFFFFFFF and the extension-member subsets rotating so that each is combined with many lengths; plus proptest cases over all of these jointly with random contents and random counters. Oracle: rpIdHash || flags (UP=0x01 UV=0x04 AT=0x40 ED=0x80) || signCount BE || [aaguid || u16 BE length || id || key] compared byte for byte, then the extension map compared as a parsed map (its key order is C03's business) with no trailing bytes; if the credential id exceeds 65535 bytes or the total exceeds 676 bytes the call must fail (the error code is not asserted), otherwise it must succeed; never a panic. Non-trivial: attested data or extensions present; the histogram reports cases within 2 bytes of the 676-byte frontier on each side.";
+pub const RULE: &str = "Deterministic grid: both flavours x attested data absent/present x aaguid length {16,0,17,15,1} x credential-id length EVERY value 0..=700 and 65535/65536/70000 x public-key length {0,32,77,256,300,600,621,622,639,640} x extensions absent/present, with the 16 flag subsets, the six counters 0,1,0xFF,0x100,0x01020304,0xFFFFFFFF and the extension-member subsets rotating so that each is combined with many lengths; plus proptest cases over all of these jointly with random contents and random counters; GetAssertion also with the empty attested-data marker supplied; and the generic AuthenticatorData<A, E> with a caller-supplied extension type (a reference value handed to serde) encoding maps of every size 0..=60 (the map head widens at 24) with integer/text keys and nested values. Oracle: rpIdHash || flags (UP=0x01 UV=0x04 AT=0x40 ED=0x80) || signCount BE || [aaguid || u16 BE length || id || key] compared byte for byte, then the extension map compared as a parsed map (its key order is C03's business) with no trailing bytes; if the credential id exceeds 65535 bytes or the total exceeds 676 bytes the call must fail (the error code is not asserted), otherwise it must succeed; never a panic. Non-trivial: attested data or extensions present; the histogram reports cases within 2 bytes of the 676-byte frontier on each side.";
 pub const ASSUMPTIONS: &[&str] = &["WebAuthn section 6.1 layout and flag bits transcribed into the model", "the specific error code on overflow is not asserted (the statement only says 'fails with an error')"];
+
+/// The struct is generic over the extension-output type: any caller-supplied `Serialize` value
+/// that encodes as a CBOR map. Maps of 0..=60 entries (23/24 is where the map head widens), nested
+/// values, text and integer keys; both attested-data types.
+/// words: [flavour, attested, entry count (raw), key style, id length (raw), flags, values...]
+fn g_generic(src: &mut Src, obs: &mut Obs) -> CaseResult {
+    let mc = src.bool();
+    let att = src.bool();
+    let n = (src.word() as usize) % 61;
+    let style = src.below(3);
+    let id_len = (src.word() as usize) % 400;
+    let fl = src.word() & 15;
+    let mut entries: Vec<(Value, Value)> = vec![];
+    for i in 0..n {
+        let k = match style {
+            0 => Value::Uint(i as u64),
+            1 => Value::text(&format!("k{:02}", i)),
+            _ => {
+                if i % 2 == 0 {
+                    Value::Uint(i as u64)
+                } else {
+                    Value::text(&format!("ext{}", i))
+                }
+            }
+        };
+        let v = match src.below(5) {
+            0 => Value::Bool(src.bool()),
+            1 => Value::Uint(src.below(300) as u64),
+            2 => Value::Bytes(src.bytes(i % 5)),
+            3 => Value::Map(vec![(Value::Uint(1), Value::Bool(true))]),
+            _ => Value::Array(vec![Value::Uint(1), Value::text("x")]),
+        };
+        entries.push((k, v));
+    }
+    let ext = Value::Map(entries);
+    let rp_hash = [0x5Au8; 32];
+    let aaguid = [0xA1u8; 16];
+    let id: Vec<u8> = (0..id_len).map(|i| i as u8).collect();
+    let key = [0xC5u8; 77];
+    let mut flags = F::empty();
+    let mut want_flags = 0u8;
+    for (bitn, f, w) in [(1u32, F::USER_PRESENCE, 1u8), (2, F::USER_VERIFIED, 4), (4, F::ATTESTED_CREDENTIAL_DATA, 0x40), (8, F::EXTENSION_DATA, 0x80)] {
+        if fl & bitn != 0 {
+            flags |= f;
+            want_flags |= w;
+        }
+    }
+    let mut model = rp_hash.to_vec();
+    model.push(want_flags);
+    model.extend_from_slice(&7u32.to_be_bytes());
+    if mc && att {
+        model.extend_from_slice(&aaguid);
+        model.extend_from_slice(&(id.len() as u16).to_be_bytes());
+        model.extend_from_slice(&id);
+        model.extend_from_slice(&key);
+    }
+    let fixed = model.len();
+    // serde emits the entries in the order given: the reference encoding in that order
+    model.extend_from_slice(&refcbor::encode(&ext));
+    let must_fail = model.len() > CAPACITY;
+    let got = if mc {
+        ctap2::AuthenticatorData {
+            rp_id_hash: &rp_hash,
+            flags,
+            sign_count: 7,
+            attested_credential_data: if att { Some(ctap2::make_credential::AttestedCredentialData { aaguid: &aaguid, credential_id: &id, credential_public_key: &key }) } else { None },
+            extensions: Some(&ext),
+        }
+        .serialize()
+        .map(|b| b.to_vec())
+        .map_err(|e| e as u8)
+    } else {
+        ctap2::AuthenticatorData { rp_id_hash: &rp_hash, flags, sign_count: 7, attested_credential_data: if att { Some(ctap2::get_assertion::NoAttestedCredentialData) } else { None }, extensions: Some(&ext) }
+            .serialize()
+            .map(|b| b.to_vec())
+            .map_err(|e| e as u8)
+    };
+    obs.label("generic-extension-type");
+    obs.labelf(format!("generic:entries:{}", match n { 0 => "0", 1..=23 => "1..23", 24 => "24", _ => ">24" }));
+    let near = (model.len() as i64 - CAPACITY as i64).abs() <= 2;
+    if n >= 2 || near {
+        obs.nontrivial(&[b"generic", &model]);
+    }
+    let case = json!({"flavour": if mc { "make_credential" } else { "get_assertion" }, "attested": att, "extension_entries": n, "credential_id_len": id_len, "total_len": model.len(), "extensions": refcbor::diag(&ext)});
+    obs.case_with(|| case.clone());
+    match (must_fail, got) {
+        (true, Err(_)) => Ok(()),
+        (true, Ok(b)) => Err(Fail::new("C07:generic:overflow-not-reported", format!("{} bytes do not fit {} but serialize returned {} bytes", model.len(), CAPACITY, b.len()), case)),
+        (false, Err(e)) => Err(Fail::new(
+            format!("C07:generic:fitting-data-rejected:{}", if n >= 24 { "map-head-2-bytes" } else { "map-head-1-byte" }),
+            format!("authenticator data of {} bytes with a {}-entry extension map was rejected with 0x{:02x}", model.len(), n, e),
+            case,
+        )),
+        (false, Ok(b)) => {
+            if b != model {
+                let at = b.iter().zip(model.iter()).position(|(x, y)| x != y).unwrap_or(b.len().min(model.len()));
+                return Err(Fail::new(
+                    format!("C07:generic:bytes-differ:{}", if at < fixed { "fixed-part" } else { "extension-map" }),
+                    format!("output differs from the layout at offset {} (got {} bytes, expected {})", at, b.len(), model.len()),
+                    case,
+                ));
+            }
+            Ok(())
+        }
+    }
+}
+pub const G_GENERIC: Gen = Gen { name: "c07_generic", f: g_generic };
 
 pub fn run(ctx: &mut Ctx) {
     let id_lens: Vec<u32> = (0..=700u32).chain([65535, 65536, 70000]).collect();
@@ -239,7 +346,7 @@ pub fn run(ctx: &mut Ctx) {
                 }
                 continue;
             }
-            for ai in 0..3usize {
+            for ai in 0..AAGUID_LENS.len() {
                 if !att && ai > 0 {
                     continue;
                 }
@@ -254,7 +361,7 @@ pub fn run(ctx: &mut Ctx) {
                         for ext in [false, true] {
                             rot = rot.wrapping_add(1);
                             let nb = 4;
-                            let mut w = vec![bit(mc), rot & 15, idx((rot as usize / 3) % 7, 7), bit(att), idx(ai, 3), idl, idx(ki, KEY_LENS.len()), bit(ext)];
+                            let mut w = vec![bit(mc), rot & 15, idx((rot as usize / 3) % 7, 7), bit(att), idx(ai, AAGUID_LENS.len()), idl, idx(ki, KEY_LENS.len()), bit(ext)];
                             for b in 0..nb {
                                 w.push(bit((rot >> (4 + b)) & 1 == 1));
                             }
@@ -291,6 +398,20 @@ pub fn run(ctx: &mut Ctx) {
         return;
     }
     ctx.random(&G_AD, &[], ctx.t(150_000, 2_000_000), 120);
+    // caller-supplied extension types: every entry count 0..=60 x flavour x attested, then random
+    let mut gi: Vec<Vec<u32>> = vec![];
+    for mc in [true, false] {
+        for att in [true, false] {
+            for n in 0..=60u32 {
+                for style in 0..3 {
+                    gi.push(vec![bit(mc), bit(att), n, idx(style, 3), n * 5, n, n.wrapping_mul(2654435761), n ^ 0x55AA_1234]);
+                }
+            }
+        }
+    }
+    ctx.enumerate(&G_GENERIC, gi.into_iter());
+    ctx.random(&G_GENERIC, &[], ctx.t(20_000, 300_000), 100);
+    ctx.require(&["generic-extension-type", "generic:entries:24", "generic:entries:>24", "generic:entries:1..23"]);
     ctx.require(&[
         "flavour:make_credential", "flavour:get_assertion", "get_assertion:marker-supplied", "attested-present", "extensions-present", "frontier:fits-within-2",
         "frontier:overflow-within-2", "id>65535", "expect:error", "expect:bytes", "flags:00", "flags:c5",
